@@ -9,7 +9,7 @@ import TonVerif.Basic
 namespace TonVerif.Py
 
 /-- `xs[a:b]` for `0 ≤ a`, `0 ≤ b`: clamps to the length, never raises, empty when `b ≤ a`. -/
-def slice {α : Type} (xs : List α) (a b : Nat) : List α := (xs.take b).drop a
+@[reducible] def slice {α : Type} (xs : List α) (a b : Nat) : List α := (xs.take b).drop a
 
 /-- `len(range(a, b, w))` for `0 ≤ a, b` and `w > 0`: `⌈(b - a) / w⌉`, `0` when `b ≤ a`. -/
 def rangeLen (a b w : Nat) : Nat := (b - a + w - 1) / w
